@@ -12,7 +12,8 @@
     * `_apply_default_and_update_required_not_to_include_fields_with_defaults` → `ownRequired`
     * `get_base_info`                            → `baseInfoOf`
     * `make_signature`                           → `makeSignature`
-    * `StructMeta.__new__` (the part that computes `_required`, `_constants`, `__signature__`) → `runtimeSig`, `clsRequired`
+    * `StructMeta.__new__` (the part that computes `_required`, `_constants`, `__signature__`; `**kwargs` from the
+      inherited `getattr` since the repair of "inherited-additional-properties*") → `runtimeSig`, `clsRequired`
     * `Structure.__init__` binding + `Structure.__setattr__` non-field guard → `runtimeAdmitsExtra`
 
   Abstractions (made by `harness/suites/stub.py:dump_classinfo`, checked per case):
@@ -126,6 +127,14 @@ def ownRequired (d : Decl) : List String :=
 
 /-! ### runtime signature -/
 
+/-- `getattr(cls, "_additional_properties", default)`: first class of the MRO that declares it -/
+def addlLookup : List Decl → Option Bool
+  | [] => none
+  | d :: rest => match d.addl with
+    | some b => some b
+    | none => addlLookup rest
+
+
 /-- inner loop of `get_base_info`: `if k not in bases_params: (required if no default); bases_params[k] = param` -/
 def bpStep (acc : List Param × List String) (p : Param) : List Param × List String :=
   if acc.1.any (fun q => q.name = p.name) then acc
@@ -155,14 +164,17 @@ def makeSignature (own : List String) (required : List String) (addl : Bool)
 
 /-- the non-recursive part of `StructMeta.__new__`: signature of a class from its own declaration, its
     complete field table and the signatures of its bases -/
-def sigOf (dflt : Bool) (d : Decl) (allF : List FieldInfo) (baseSigs : List Sig) : Sig :=
-  makeSignature (d.fields.map (·.name)) (ownRequired d) (d.addl.getD dflt)
+def sigOf (addl : Bool) (d : Decl) (allF : List FieldInfo) (baseSigs : List Sig) : Sig :=
+  makeSignature (d.fields.map (·.name)) (ownRequired d) addl
     (baseInfoOf baseSigs).1 (baseInfoOf baseSigs).2 (constNames allF)
 
 mutual
-/-- `cls.__signature__`; `dflt` is `TypedPyDefaults.additional_properties_default` -/
+/-- `cls.__signature__`; `dflt` is `TypedPyDefaults.additional_properties_default`.  Since the repair of the
+    findings "inherited-additional-properties*" `StructMeta.__new__` reads the flag with `getattr` on the new class
+    (first class of the MRO that declares it), as `Structure.__setattr__` and the stub generator always did. -/
 def runtimeSig (dflt : Bool) : ClassInfo → Sig
-  | .mk d bases => sigOf dflt d (fieldsByName (d :: mroL bases)) (runtimeSigs dflt bases)
+  | .mk d bases => sigOf ((addlLookup (d :: mroL bases)).getD dflt) d (fieldsByName (d :: mroL bases))
+      (runtimeSigs dflt bases)
 termination_by structural c => c
 def runtimeSigs (dflt : Bool) : List ClassInfo → List Sig
   | [] => []
@@ -173,13 +185,6 @@ end
 /-- `cls._required = list(set(bases_required + required))` (order unspecified) -/
 def clsRequired (dflt : Bool) : ClassInfo → List String
   | .mk d bases => (baseInfoOf (runtimeSigs dflt bases)).2 ++ ownRequired d
-
-/-- `getattr(cls, "_additional_properties", default)`: first class of the MRO that declares it -/
-def addlLookup : List Decl → Option Bool
-  | [] => none
-  | d :: rest => match d.addl with
-    | some b => some b
-    | none => addlLookup rest
 
 /-- the guard of `Structure.__setattr__` lets a non-field name through -/
 def setattrAllows (dflt : Bool) (c : ClassInfo) : Bool := (addlLookup (mro c)).getD dflt
